@@ -56,7 +56,7 @@ fn q_h13hdr__write_read_all_sizes() {
 /// mdat size patch of a zero-track writer (the mdat logic does not look at tracks): start offset
 /// p0 and payload gap g symbolic.
 #[kani::proof]
-#[kani::unwind(26)]
+#[kani::unwind(82)]
 fn q_h13mdat__size_patch_any_start_any_gap() {
     let p0: u64 = kani::any();
     let g: u64 = kani::any();
@@ -79,7 +79,6 @@ fn q_h13mdat__size_patch_any_start_any_gap() {
         let at = s.pos;
         assert!(at == p0 + 32, "C13 ftyp + mdat header + wide placeholder");
         let _ = s.seek(SeekFrom::Start(at + g));
-        s.b_base = at + g; // window over the start of moov
     }
     match w.write_end() {
         Ok(()) => {}
@@ -111,7 +110,7 @@ fn q_h13mdat__size_patch_any_start_any_gap() {
 /// The chunk offset recorded is the stream position at flush for every start position, and
 /// write_end keeps 64-bit offsets exactly when one does not fit 32 bits.
 #[kani::proof]
-#[kani::unwind(5)]
+#[kani::unwind(82)]
 fn q_h13co64__offset_any_start_and_write_end() {
     let p0: u64 = kani::any();
     kani::assume(p0 < POS_LIMIT);
@@ -207,12 +206,12 @@ fn h13_dur<const K: usize>() {
 }
 
 #[kani::proof]
-#[kani::unwind(4)]
+#[kani::unwind(9)]
 fn q_h13dur__k1() {
     h13_dur::<1>()
 }
 #[kani::proof]
-#[kani::unwind(5)]
+#[kani::unwind(9)]
 fn q_h13dur__k2() {
     h13_dur::<2>()
 }
